@@ -275,7 +275,11 @@ func RunC10(rep *explore.Report, tier string) {
 	grid := PlayGrid(tier)
 	if tier != "thorough" {
 		for _, c := range grid {
-			c.Amounts = "classes"
+			if c.Amounts == "all" {
+				if c.Amounts == "all" {
+					c.Amounts = "classes"
+				}
+			}
 		}
 	}
 	RunGrid(rep, grid, Visitors["C10"], GridOpts{Property: "C10", MaxState: 3000000})
